@@ -2,6 +2,7 @@ package interp
 
 import (
 	"fmt"
+	"go/types"
 	"strings"
 
 	"golang.org/x/tools/go/ssa"
@@ -47,6 +48,7 @@ func resultZero(ip *Interp, fnName string, fr *frame) Value {
 }
 
 func registerStdIntrinsics(ip *Interp) {
+	registerFmt(ip)
 	// golang.org/x/text/cases: Title(...).String(w) — total, arbitrary text of the
 	// input's length (x/text itself is outside the claim).
 	ip.regStub("golang.org/x/text/cases.Title", func(ip *Interp, fr *frame, a []Value) Value {
@@ -59,4 +61,162 @@ func registerStdIntrinsics(ip *Interp) {
 	})
 }
 
+// ---------------------------------------------------------------- fmt
+
+// sprintf implements the verbs that occur in the code under test with concrete
+// format strings: %s %v %d %q %w %%. Symbolic string arguments are copied as
+// symbolic bytes; anything else must be concrete.
+func (ip *Interp) sprintf(format string, args []Value) (Str, Value) {
+	var out []*sym.Term
+	var wrapped Value
+	lit := func(s string) { out = append(out, mkStr(ip.ctx, s).B...) }
+	ai := 0
+	for i := 0; i < len(format); i++ {
+		ch := format[i]
+		if ch != '%' {
+			out = append(out, ip.ctx.BV(uint64(ch), 8))
+			continue
+		}
+		i++
+		if i >= len(format) {
+			lit("%!(NOVERB)")
+			break
+		}
+		verb := format[i]
+		if verb == '%' {
+			lit("%")
+			continue
+		}
+		if ai >= len(args) {
+			lit("%!" + string(verb) + "(MISSING)")
+			continue
+		}
+		a := args[ai]
+		ai++
+		if verb == 'w' {
+			wrapped = a
+		}
+		out = append(out, ip.fmtValue(verb, a).B...)
+	}
+	return strOf(out), wrapped
+}
+
+func (ip *Interp) fmtValue(verb byte, a Value) Str {
+	itf, ok := a.(Iface)
+	if !ok {
+		panic(unsupported("fmt: non-interface argument"))
+	}
+	if itf.T == nil {
+		if verb == 'd' {
+			return mkStr(ip.ctx, "%!d(<nil>)")
+		}
+		return mkStr(ip.ctx, "<nil>")
+	}
+	// error / Stringer
+	if verb == 's' || verb == 'v' || verb == 'w' || verb == 'q' {
+		for _, m := range []string{"Error", "String"} {
+			if f := ip.findMethod(itf.T, m); f != nil && f.Signature.Params().Len() == 0 && f.Signature.Results().Len() == 1 && isStringT(f.Signature.Results().At(0).Type()) {
+				r := ip.call(ip.curFrame, f, []Value{itf.V})
+				return ip.fmtStr(verb, r.(Str))
+			}
+		}
+	}
+	switch v := itf.V.(type) {
+	case Str:
+		return ip.fmtStr(verb, v)
+	case *sym.Term:
+		if !v.IsConst() {
+			// only ever used to build panic / error messages, whose text no harness reads
+			ip.Used["fmt: symbolic integer rendered as placeholder text"] = "stub"
+			return mkStr(ip.ctx, "<symbolic>")
+		}
+		if v.W == 0 {
+			if v.Val != 0 {
+				return mkStr(ip.ctx, "true")
+			}
+			return mkStr(ip.ctx, "false")
+		}
+		_, signed, _ := intWidth(itf.T)
+		if signed {
+			return mkStr(ip.ctx, fmt.Sprintf("%"+string(verb), v.SignedVal()))
+		}
+		return mkStr(ip.ctx, fmt.Sprintf("%"+string(verb), v.Val))
+	case Slice:
+		if s, ok := itf.T.Underlying().(interface {
+			Elem() interface{ String() string }
+		}); ok {
+			_ = s
+		}
+	}
+	return mkStr(ip.ctx, fmt.Sprintf("<%s value>", itf.T.String()))
+}
+
+func (ip *Interp) fmtStr(verb byte, s Str) Str {
+	if verb == 'q' {
+		if c, ok := s.Concrete(); ok {
+			return mkStr(ip.ctx, fmt.Sprintf("%q", c))
+		}
+		// symbolic text inside quotes: quoting escapes are not modelled; the text is only used in messages
+		b := append([]*sym.Term{ip.ctx.BV('"', 8)}, s.B...)
+		return strOf(append(b, ip.ctx.BV('"', 8)))
+	}
+	return s
+}
+
+func variadicArgs(v Value) []Value {
+	sl := v.(Slice)
+	out := make([]Value, sl.Len)
+	for i := range out {
+		out[i] = *sl.at(i)
+	}
+	return out
+}
+
+func (ip *Interp) newError(msg Str) Value {
+	p := ip.Prog.ImportedPackage("errors")
+	return ip.callSSA(ip.curFrame, p.Func("New"), []Value{msg}, nil)
+}
+
+func registerFmt(ip *Interp) {
+	ip.reg("fmt.Sprintf", func(ip *Interp, fr *frame, a []Value) Value {
+		f, ok := a[0].(Str).Concrete()
+		if !ok {
+			panic(unsupported("fmt.Sprintf with symbolic format"))
+		}
+		s, _ := ip.sprintf(f, variadicArgs(a[1]))
+		return s
+	})
+	ip.reg("fmt.Errorf", func(ip *Interp, fr *frame, a []Value) Value {
+		f, ok := a[0].(Str).Concrete()
+		if !ok {
+			panic(unsupported("fmt.Errorf with symbolic format"))
+		}
+		s, wrapped := ip.sprintf(f, variadicArgs(a[1]))
+		if wrapped == nil {
+			return ip.newError(s)
+		}
+		// *fmt.wrapError{msg, err}
+		t := ip.Prog.ImportedPackage("fmt").Type("wrapError")
+		p := new(Value)
+		*p = Struct{s, wrapped}
+		return Iface{T: typesPointer(t.Type()), V: p}
+	})
+	ip.reg("fmt.Sprint", func(ip *Interp, fr *frame, a []Value) Value {
+		var out []*sym.Term
+		for _, x := range variadicArgs(a[0]) {
+			out = append(out, ip.fmtValue('v', x).B...)
+		}
+		return strOf(out)
+	})
+	for _, n := range []string{"fmt.Println", "fmt.Printf", "fmt.Print"} {
+		ip.reg(n, func(ip *Interp, fr *frame, a []Value) Value {
+			return Tuple{ip.ctx.BV(0, 64), Iface{}}
+		})
+	}
+	ip.allowFn["(*fmt.wrapError).Error"] = true
+	ip.allowFn["(*fmt.wrapError).Unwrap"] = true
+}
+
 var _ *ssa.Function
+
+func typesPointer(t types.Type) types.Type { return types.NewPointer(t) }
